@@ -221,8 +221,12 @@ class Project(object):
             parts = self._norm_cache[key]
         except KeyError:
             parts = []
+            # a directory on the path is where top-level names live: it is
+            # not a package of its own even if it holds an __init__.py
+            tops = set(os.path.abspath(p) for p in self.get_path())
             while True:
-                if os.path.exists(os.path.join(root, '__init__.py')):
+                if (os.path.abspath(root) not in tops and
+                        os.path.exists(os.path.join(root, '__init__.py'))):
                     parts.insert(0, os.path.basename(root))
                     root = os.path.dirname(root)
                 else:
